@@ -317,7 +317,16 @@ impl Stats {
     /// Evaluates one case through `f` inside the panic boundary.
     #[inline]
     pub fn eval<C: Case>(&mut self, c: &C, f: impl FnOnce(&mut Stats, &C)) {
-        if self.seq_shard.1 > 1 {
+        self.eval_opt(c, f, true)
+    }
+    /// like `eval`, but never skipped by sequential sharding (set-up work every shard needs, e.g. compiling a picture)
+    #[inline]
+    pub fn eval_unsharded<C: Case>(&mut self, c: &C, f: impl FnOnce(&mut Stats, &C)) {
+        self.eval_opt(c, f, false)
+    }
+    #[inline]
+    fn eval_opt<C: Case>(&mut self, c: &C, f: impl FnOnce(&mut Stats, &C), sharded: bool) {
+        if sharded && self.seq_shard.1 > 1 {
             self.seq += 1;
             if self.seq % self.seq_shard.1 != self.seq_shard.0 {
                 return;
@@ -473,6 +482,32 @@ impl Stats {
 
 pub trait Case {
     fn to_json(&self) -> Value;
+}
+
+/// a picture on its own (used when compiling one is itself the monitored call)
+pub struct PicCase<'a>(pub &'a str);
+impl<'a> Case for PicCase<'a> {
+    fn to_json(&self) -> Value {
+        json!({"kind": "picture", "picture": self.0, "len": self.0.len()})
+    }
+}
+
+/// Compiles a picture inside the panic boundary. A panic becomes a finding; a rejection is reported under
+/// `reject_key` when given (the caller knows the picture is a documented one).
+pub fn compile_picture(st: &mut Stats, pic: &str, reject_key: Option<&str>) -> Option<sqldatetime::Formatter> {
+    let mut out = None;
+    st.eval_unsharded(&PicCase(pic), |st, c| {
+        st.op(Op::F_try_new);
+        match sqldatetime::Formatter::try_new(c.0) {
+            Ok(f) => out = Some(f),
+            Err(e) => {
+                if let Some(k) = reject_key {
+                    st.fail(k, format!("documented picture {:?} rejected: {:?}", c.0, e));
+                }
+            }
+        }
+    });
+    out
 }
 
 // ---------------------------------------------------------------- range monitor
